@@ -14,7 +14,7 @@ from __future__ import annotations
 
 import ast
 from fractions import Fraction
-from typing import Dict, List, Optional, Tuple
+from typing import Dict, List, Optional, Set, Tuple
 
 from ..callgraph import get_resolver
 from ..degree import DegreeAnalysis, Interp, T, INT, ZERO, ONE, HALF, POLY, lfmt
@@ -372,42 +372,163 @@ def clause_d(ctx: Context, idx) -> None:
 
 
 def clause_f_axes(ctx: Context) -> None:
-    """The exact and the sampling treatment of imperfect detectors read the same detector matrix P(detected | actual): a count that is
-    called the same in two sibling functions must be read from the same axis of that matrix (rows = detected, columns = actual)."""
-    ctx.rule("C02f", "sibling functions read a like-named size from the same axis of the same matrix parameter (detector efficiency matrix: the exact "
-                     "and the finite-shots path agree on which axis lists the detectable counts)")
+    """Axis typing of the detector matrix P(detected | actual) in the exact and in the sampling treatment of imperfect detectors: a size
+    read from axis k of a matrix parameter may bound only indices that run along axis k of that matrix.  Columns `M[:, c]` are vectors along
+    axis 0 (one probability per detected count), rows `M[r]` / `M[r, :]` vectors along axis 1.  Checked uses of a size S = M.shape[k]:
+    `rng.choice(S, p=V)` with V a vector of M (its length is the extent of V's axis); an index drawn from `range(S)` (also through
+    itertools.product and enumerate) that subscripts a vector of M; a bound test `x >= S` / `x < S` on an x that subscripts M directly.
+    Vectors are followed through list comprehensions, loops and the return value of helper functions of the module (by parameter)."""
+    ctx.rule("C02f", "a size read from axis k of a matrix parameter bounds only indices that run along axis k of that matrix (detector efficiency "
+                     "matrix: the exact and the finite-shots path agree on which axis lists the detectable counts)")
     idx = get_index(ctx.repo)
     m = idx.module("piquasso._simulators.simulation_steps")
-    seen: Dict[Tuple[str, str], Dict[int, List[Tuple[FuncInfo, ast.AST]]]] = {}
+
+    def vec_of(e: ast.AST, params: Set[str]) -> Optional[Tuple[str, int]]:
+        """M[:, c] -> (M, 0);  M[r, :] / M[r] -> (M, 1)"""
+        if isinstance(e, ast.Subscript) and isinstance(e.value, ast.Name) and e.value.id in params:
+            sl = e.slice
+            full = lambda x: isinstance(x, ast.Slice) and x.lower is None and x.upper is None  # noqa: E731
+            if isinstance(sl, ast.Tuple) and len(sl.elts) == 2:
+                if full(sl.elts[0]) and not full(sl.elts[1]):
+                    return (e.value.id, 0)
+                if full(sl.elts[1]) and not full(sl.elts[0]):
+                    return (e.value.id, 1)
+            elif not isinstance(sl, (ast.Slice, ast.Tuple)):
+                return (e.value.id, 1)
+        return None
+
+    # summaries: functions returning a list of vectors of one of their parameters
+    returns_veclist: Dict[str, Tuple[str, int]] = {}
     for fn in m.functions.values():
         params = set(fn.all_params())
+        for r in walk_no_nested(fn.node):
+            if isinstance(r, ast.Return) and isinstance(r.value, (ast.ListComp, ast.GeneratorExp)):
+                v = vec_of(r.value.elt, params)
+                if v is not None:
+                    returns_veclist[fn.name] = v
+    n_sizes = n_uses = 0
+    for fn in m.functions.values():
+        params = set(fn.all_params())
+        sizes: Dict[str, Tuple[str, int]] = {}
+        veclists: Dict[str, Tuple[str, int]] = {}
+        vecs: Dict[str, Tuple[str, int]] = {}
         for a in walk_no_nested(fn.node):
-            if not isinstance(a, ast.Assign) or len(a.targets) != 1:
-                continue
-            t, v = a.targets[0], a.value
-            # n = M.shape[k]
-            if isinstance(t, ast.Name) and isinstance(v, ast.Subscript) and isinstance(v.value, ast.Attribute) and v.value.attr == "shape" \
-                    and isinstance(v.value.value, ast.Name) and v.value.value.id in params and isinstance(v.slice, ast.Constant):
-                seen.setdefault((v.value.value.id, t.id), {}).setdefault(int(v.slice.value), []).append((fn, a))
-            # a, b = M.shape
-            if isinstance(t, ast.Tuple) and isinstance(v, ast.Attribute) and v.attr == "shape" and isinstance(v.value, ast.Name) and v.value.id in params:
-                for k, e in enumerate(t.elts):
-                    if isinstance(e, ast.Name) and e.id != "_":
-                        seen.setdefault((v.value.id, e.id), {}).setdefault(k, []).append((fn, a))
-    n = 0
-    for (mat, name), by_axis in sorted(seen.items()):
-        total = sum(len(v) for v in by_axis.values())
-        if total < 2:
+            if isinstance(a, ast.Assign) and len(a.targets) == 1:
+                t, v = a.targets[0], a.value
+                if isinstance(t, ast.Name) and isinstance(v, ast.Subscript) and isinstance(v.value, ast.Attribute) and v.value.attr == "shape" \
+                        and isinstance(v.value.value, ast.Name) and v.value.value.id in params and isinstance(v.slice, ast.Constant):
+                    sizes[t.id] = (v.value.value.id, int(v.slice.value))
+                if isinstance(t, ast.Tuple) and isinstance(v, ast.Attribute) and v.attr == "shape" and isinstance(v.value, ast.Name) and v.value.id in params:
+                    for k, e in enumerate(t.elts):
+                        if isinstance(e, ast.Name):
+                            sizes[e.id] = (v.value.id, k)
+                if isinstance(t, ast.Name) and isinstance(v, ast.Call) and isinstance(v.func, ast.Name) and v.func.id in returns_veclist:
+                    callee = m.functions[v.func.id]
+                    cp = callee.all_params()
+                    bound = {p_: a_ for p_, a_ in zip(cp, v.args)}
+                    bound.update({k_.arg: k_.value for k_ in v.keywords if k_.arg})
+                    pm, ax = returns_veclist[v.func.id]
+                    arg = bound.get(pm)
+                    if isinstance(arg, ast.Name) and arg.id in params:
+                        veclists[t.id] = (arg.id, ax)
+                if isinstance(t, ast.Name) and isinstance(v, (ast.ListComp,)) and vec_of(v.elt, params) is not None:
+                    veclists[t.id] = vec_of(v.elt, params)
+        ch = True
+        while ch:   # plain moves of a size
+            ch = False
+            for a in walk_no_nested(fn.node):
+                if isinstance(a, ast.Assign) and len(a.targets) == 1 and isinstance(a.targets[0], ast.Name) and isinstance(a.value, ast.Name) \
+                        and a.value.id in sizes and a.targets[0].id not in sizes:
+                    sizes[a.targets[0].id] = sizes[a.value.id]
+                    ch = True
+        n_sizes += len(sizes)
+        if not sizes:
             continue
-        n += 1
-        ok = len(by_axis) == 1
-        key = f"{m.name}|{name} from {mat}.shape"
-        ctx.obligation("C02f", key, ok, axes=sorted(by_axis))
-        if not ok:
-            minority = min(by_axis.items(), key=lambda kv: len(kv[1]))
-            fn, a = minority[1][0]
-            ctx.violation("C02f", key, fn.file, a.lineno,
-                          f"`{name}` is read from axis {minority[0]} of `{mat}` in {fn.name} but from axis "
-                          f"{[k for k in by_axis if k != minority[0]][0]} in {', '.join(sorted({f.name for k, v in by_axis.items() if k != minority[0] for f, _ in v}))}: "
-                          f"the exact and the sampled treatment of the detectors enumerate different outcome sets", norm(a)[:100])
-    ctx.require_floor("C02f like-named sizes read from a matrix parameter by sibling functions", n, 1)
+        # loop variables: over a veclist -> vector; over range(S) / product(range(S), ...) / enumerate of such -> index bounded by S
+        idx_of: Dict[str, str] = {}      # index variable -> size name
+        tuple_of: Dict[str, str] = {}    # variable holding a tuple of such indices -> size name
+
+        def range_size(e: ast.AST) -> Optional[str]:
+            if isinstance(e, ast.Call) and (dotted(e.func) or "") == "range" and len(e.args) == 1 and isinstance(e.args[0], ast.Name) and e.args[0].id in sizes:
+                return e.args[0].id
+            return None
+
+        changed = True
+        while changed:
+            changed = False
+            for lp in ast.walk(fn.node):
+                if not isinstance(lp, (ast.For, ast.comprehension)):
+                    continue
+                it, tg = lp.iter, lp.target
+                if isinstance(it, ast.Name) and it.id in veclists and isinstance(tg, ast.Name) and tg.id not in vecs:
+                    vecs[tg.id] = veclists[it.id]
+                    changed = True
+                rs = range_size(it)
+                if rs and isinstance(tg, ast.Name) and tg.id not in idx_of:
+                    idx_of[tg.id] = rs
+                    changed = True
+                if isinstance(it, ast.Call) and (dotted(it.func) or "").split(".")[-1] == "product" and it.args and range_size(it.args[0]) \
+                        and isinstance(tg, ast.Name) and tg.id not in tuple_of:
+                    tuple_of[tg.id] = range_size(it.args[0])
+                    changed = True
+                if isinstance(it, ast.Call) and (dotted(it.func) or "") == "enumerate" and it.args and isinstance(it.args[0], ast.Name) \
+                        and it.args[0].id in tuple_of and isinstance(tg, ast.Tuple) and len(tg.elts) == 2 and isinstance(tg.elts[1], ast.Name) \
+                        and tg.elts[1].id not in idx_of:
+                    idx_of[tg.elts[1].id] = tuple_of[it.args[0].id]
+                    changed = True
+                if isinstance(it, ast.Name) and it.id in tuple_of and isinstance(tg, ast.Name) and tg.id not in idx_of:
+                    idx_of[tg.id] = tuple_of[it.id]
+                    changed = True
+
+        def report(node: ast.AST, sname: str, vec: Tuple[str, int], how: str) -> None:
+            nonlocal n_uses
+            pm, k = sizes[sname]
+            if vec[0] != pm:
+                return
+            n_uses += 1
+            key = f"{fn.qualname}|{pm}.shape[{k}] {how}"
+            ok = vec[1] == k
+            ctx.obligation("C02f", key, ok, f"{ctx.relpath(fn.file)}:{node.lineno}")
+            if not ok:
+                ctx.violation("C02f", key, fn.file, node.lineno,
+                              f"`{sname}` is the extent of axis {k} of `{pm}` but {how} along axis {vec[1]} of `{pm}` in {fn.name}: for a non-square "
+                              f"matrix the exact and the sampled treatment of the detectors enumerate different outcome sets (or index out of range)",
+                              norm(node)[:100])
+
+        def vec_tag(e: ast.AST) -> Optional[Tuple[str, int]]:
+            if isinstance(e, ast.Name) and e.id in vecs:
+                return vecs[e.id]
+            if isinstance(e, ast.Subscript) and isinstance(e.value, ast.Name) and e.value.id in veclists:
+                return veclists[e.value.id]
+            return vec_of(e, params)
+
+        for x in ast.walk(fn.node):
+            # rng.choice(S, ..., p=V)
+            if isinstance(x, ast.Call) and isinstance(x.func, ast.Attribute) and x.func.attr == "choice" and x.args and isinstance(x.args[0], ast.Name) \
+                    and x.args[0].id in sizes:
+                pk = next((k_.value for k_ in x.keywords if k_.arg == "p"), None)
+                vt = vec_tag(pk) if pk is not None else None
+                if vt is not None:
+                    report(x, x.args[0].id, vt, "is the number of alternatives of a draw whose probability vector runs")
+            # V[i] with i bounded by S
+            if isinstance(x, ast.Subscript) and isinstance(x.slice, ast.Name) and x.slice.id in idx_of:
+                vt = vec_tag(x.value)
+                if vt is not None:
+                    report(x, idx_of[x.slice.id], vt, "bounds an index that runs")
+            # x >= S / x < S with x used as a direct index of the matrix
+            if isinstance(x, ast.Compare) and len(x.ops) == 1 and isinstance(x.left, ast.Name) and isinstance(x.comparators[0], ast.Name) \
+                    and x.comparators[0].id in sizes and isinstance(x.ops[0], (ast.GtE, ast.Lt, ast.Gt, ast.LtE)):
+                pm, k = sizes[x.comparators[0].id]
+                var = x.left.id
+                for f2 in m.functions.values():
+                    if f2 is not fn:
+                        continue
+                    for sub in ast.walk(f2.node):
+                        if isinstance(sub, ast.Subscript) and isinstance(sub.value, ast.Name) and sub.value.id == pm:
+                            sl = sub.slice
+                            elts = sl.elts if isinstance(sl, ast.Tuple) else [sl]
+                            for ax, el in enumerate(elts):
+                                if isinstance(el, ast.Name) and el.id == var:
+                                    report(x, x.comparators[0].id, (pm, ax), "is the bound tested for an index that is used")
+    ctx.require_floor("C02f sizes read from an axis of a matrix parameter", n_sizes, 3)
+    ctx.require_floor("C02f uses of such sizes along an axis of the same matrix", n_uses, 3)
